@@ -878,3 +878,25 @@ func runAdrForeign(t *Toks) string {
 }
 
 func init() { runs["adrforeign"] = runAdrForeign }
+
+// adrhyb: hand-built confidential base58 strings for every (outer network, inner network, p2pkh|p2sh):
+// outer confidential version byte of one network, inner address prefix of another (or the same, which is
+// the valid control); emitted as adrdec lines, so the model decides accept/reject and the adrdec oracle
+// converts whatever is recognised
+func genAdrHyb(r *Rng, n int, w *bufio.Writer) {
+	for i := 0; i < n; i++ {
+		outer, inner, sh := adrNets[i%3], adrNets[(i/3)%3], (i/9)%2 == 1
+		p := inner.PubKeyHash
+		if sh {
+			p = inner.ScriptHash
+		}
+		key := genKey33(r)
+		if r.Chance(25) {
+			key = r.Bytes(33)
+		}
+		d := append(append([]byte{p}, key...), r.Bytes(20)...)
+		fmt.Fprintf(w, "adrdec %s\n", hxs(base58.CheckEncode(d, outer.Confidential)))
+	}
+}
+
+func init() { gens["adrhyb"] = genAdrHyb }
